@@ -16,6 +16,8 @@ import copy
 import json
 from fractions import Fraction
 
+import numpy as np
+
 from harness import pipeline, paired, mapcheck, trees, routing
 
 E_KEY = 6          # Tree.E_KEY (KeyError)
@@ -560,6 +562,108 @@ def out_cells(gt, res, cell_ids):
     return [canon_cell(gt.levels, by[cid], ordered=False) for cid in cell_ids]
 
 
+def sparse_parents(sc, li, min_markers):
+    """parents of level li+1 with >= 2 children whose marker list has fewer than min_markers genes in the query"""
+    gt = sc.tree
+    usable = set(sc.query_genes)
+    out = []
+    for node, kids in gt.model[li + 1]:
+        if len(kids) >= 2:
+            have = len(usable.intersection(sc.markers.get(f'{gt.levels[li + 1]}/{gt.name(node)}', [])))
+            if have < min_markers:
+                out.append(node)
+    return out
+
+
+def gen_sparse_scenario(rng):
+    """A taxonomy of 4-5 levels, a MIDDLE level li whose child level li+1 is itself a parent level, and a
+    marker table in which parents of level li+1 have fewer genes in the query than min_markers, so that
+    validate_marker_lookup must borrow from the ancestors of that parent IN THE REDUCED TREE (the node of
+    level li-1, never the removed node of level li); the ancestors carry marker lists of their own that
+    differ from the root's, and the query cells are noisy copies of leaves below the sparse parents.
+    Returns (scenario, li, min_markers)."""
+    n_levels = rng.choice([4, 4, 5])
+    li = rng.randrange(1, n_levels - 2)
+    caps = [12, 7, 5, 4, 3]                   # widest allowed level, counted from the leaf level upward
+    for _ in range(50):
+        lc = []
+        width = rng.choice([1, 2, 2])
+        for lev in range(n_levels - 1):
+            row = [rng.choice([2, 2, 3, 1]) if lev == li + 1 else rng.choice([1, 2, 2]) if lev in (li - 1, li)
+                   else rng.choice([1, 1, 2]) for _ in range(width)]
+            if lev == li + 1:
+                row[rng.randrange(len(row))] = rng.choice([2, 3])
+            while sum(row) > caps[n_levels - 2 - lev] and any(r > 1 for r in row):
+                big = [i for i, r in enumerate(row) if r > 1]
+                row[rng.choice(big)] -= 1
+            lc.append(row)
+            width = sum(row)
+        if any(r >= 2 for r in lc[li + 1]):
+            break
+    sc = pipeline.Scenario()
+    sc.tree = gt = trees.build(lc, rng, 0)
+    n_ref = rng.randrange(22, 34)
+    ref = list(range(n_ref))
+    rng.shuffle(ref)
+    sc.ref_genes = ref
+    q = [g for g in ref if rng.random() < 0.8]
+    missing = [g for g in ref if g not in q]
+    q += list(range(100, 100 + rng.randrange(0, 4)))
+    rng.shuffle(q)
+    sc.query_genes = q
+    usable = [g for g in ref if g in q]
+    leaves = [n for n, _ in gt.model[-1]]
+    sc.means = {lf: {g: rng.randrange(0, 97) / 8.0 for g in ref} for lf in leaves}
+    min_markers = rng.choice([2, 3, 5])
+    markers = {'None': rng.sample(usable, rng.randrange(3, 8))}
+    not_root = [g for g in usable if g not in markers['None']]
+    for lev, lvl in enumerate(gt.model[:-1]):
+        for node, kids in lvl:
+            key = f'{gt.levels[lev]}/{gt.name(node)}'
+            if lev == li + 1 and len(kids) >= 2 and rng.random() < 0.85:
+                # the sparse parent: 0 .. min_markers-1 genes of the query (+ genes the query lacks)
+                u = rng.randrange(0, min_markers)
+                lst = rng.sample(usable, u)
+                if u > 0 and missing:
+                    lst += rng.sample(missing, rng.randrange(0, min(2, len(missing)) + 1))
+                    rng.shuffle(lst)
+                if u == 0 and rng.random() < 0.5:
+                    continue                       # not listed at all
+                markers[key] = lst
+            elif lev <= li:
+                # ancestors (and the level that will be removed): lists of their own, mostly not the root's,
+                # long enough to satisfy min_markers; single-child parents get genes of the query only
+                pool = not_root if len(not_root) >= 6 and rng.random() < 0.8 else usable
+                k = rng.randrange(min(min_markers, len(pool)), min(len(pool), min_markers + 4) + 1)
+                if rng.random() < 0.15:
+                    k = rng.randrange(1, 3)        # an ancestor that is sparse itself: the borrowing goes further up
+                markers[key] = rng.sample(pool, k)
+            elif len(kids) >= 2:
+                lst = rng.sample(ref, rng.randrange(2, 8))
+                if not any(g in usable for g in lst):
+                    lst[0] = rng.choice(usable)
+                markers[key] = lst
+            elif rng.random() < 0.3:
+                markers[key] = rng.sample(usable, 2)
+    sc.markers = markers
+    # cells: noisy copies of leaves, mostly below the sparse parents
+    sparse = sparse_parents(sc, li, min_markers)
+    below = []
+    for node, kids in gt.model[li + 1]:
+        if node in sparse:
+            below += paired._leaves_under(gt.model, li + 1, node)
+    n_cells = rng.randrange(4, 9)
+    sc.cell_ids = [f'c{x:03d}' for x in rng.sample(range(200), n_cells)]
+    rows = []
+    for _ in range(n_cells):
+        lf = rng.choice(below) if below and rng.random() < 0.75 else rng.choice(leaves)
+        rows.append([max(0.0, sc.means[lf][g] + rng.randrange(-12, 13) / 8.0) if g in sc.means[lf]
+                     else rng.randrange(0, 97) / 8.0 for g in q])
+    sc.query = np.array(rows, dtype=np.float64)
+    sc.normalization = 'log2CPM'
+    return sc, li, min_markers
+
+
 def pipeline_part(ctx):
     rng = ctx.rng
     n = ctx.n(14, 200)
@@ -567,9 +671,6 @@ def pipeline_part(ctx):
         sc = pipeline.gen_scenario(rng, max_levels=5, max_leaves=8, n_cells=rng.randrange(2, 8))
         gt = sc.tree
         var = paired.base_var(rng, sc, factor=rng.choice([0.5, 0.75, 1.0]))
-        desc = {'kind': 'paired-run', 'tree': gt.data, 'markers': sc.markers, 'cell_ids': sc.cell_ids,
-                'query': sc.query.tolist(), 'query_genes': sc.query_genes, 'ref_genes': sc.ref_genes,
-                'means': {str(a): b for a, b in sc.means.items()}, 'config': var}
         modes = []
         for lv in gt.levels[:-1]:
             if len(gt.levels) > 1:
@@ -577,101 +678,156 @@ def pipeline_part(ctx):
         modes.append(('flatten', None))
         modes.append(('absent', 'no_such_level'))
         rng.shuffle(modes)
-        for mode, lv in modes[:ctx.n(3, 6)]:
-            ctx.count(('c17', k, mode, lv), nontrivial=len(gt.levels) >= 2)
-            ctx.dist('mode', mode)
-            ctx.dist('levels', len(gt.levels))
-            dd = dict(desc)
-            dd.update({'mode': mode, 'level': lv})
-            if mode == 'drop':
-                li = gt.levels.index(lv)
-                m = ctx.model([(1004, [gt.model, li])])[0]
-                va = dict(var); va['drop_level'] = lv
-                ra = paired.run_once(ctx, sc, f'a{k}_{li}', **va)
-                if m[0] != 0:
-                    if ra['ok']:
-                        dd['class'] = 'corr:Tree.drop_level'
-                        ctx.violation(f'model rejects dropping {lv} ({m}) but the run succeeded', dd, no_input=True)
-                    continue
-                rlevels = [x for x in gt.levels if x != lv]
-                rdata = model_to_data(rlevels, m[1], gt)
-                rb = paired.run_once(ctx, sc, f'b{k}_{li}', tree_data=rdata, **var)
-                shared = rlevels
-                mcfg = ([li], False)
-            elif mode == 'flatten':
-                va = dict(var); va['flatten'] = True
-                ra = paired.run_once(ctx, sc, f'a{k}_f', **va)
-                rdata = model_to_data([gt.levels[-1]], [gt.model[-1]], gt)
-                union = sorted(set(g for v in sc.markers.values() for g in v), key=lambda g: pipeline.gname(g))
-                rb = paired.run_once(ctx, sc, f'b{k}_f', tree_data=rdata, markers={'None': union}, **var)
-                shared = [gt.levels[-1]]
-                mcfg = ([], True)
-            else:
-                va = dict(var); va['drop_level'] = lv
-                ra = paired.run_once(ctx, sc, f'a{k}_x', **va)
-                rb = paired.run_once(ctx, sc, f'b{k}_x', **var)
-                shared = gt.levels
-                mcfg = ([len(gt.levels)], False)          # an index that is not a level
-            if not ra['ok'] or not rb['ok']:
-                dd['class'] = 'c17-run-raises'
-                dd['error'] = [ra['error'], rb['error']]
-                ctx.violation(f'{mode} {lv}: a run raised: {dd["error"]}', dd)
-                continue
-            a, b = paired.by_cell(ra), paired.by_cell(rb)
-            bad = None
-            for cid in sc.cell_ids:
-                diff = paired.compare_records(a[cid], b[cid], shared, bitwise=True)
-                if diff:
-                    bad = f'cell {cid}: {diff}'
-                    break
-                if mode == 'drop':
-                    li = gt.levels.index(lv)
-                    finer = trees.GenTree.num(a[cid][gt.levels[li + 1]]['assignment'])
-                    par = mapcheck.parent_of(gt.model, li + 1, finer)
-                    rec = a[cid].get(lv)
-                    if rec is None or trees.GenTree.num(rec['assignment']) != par or rec.get('directly_assigned') is not False:
-                        bad = f'cell {cid}: dropped level {lv} holds {rec}, expected the parent {par} of {finer}, inferred'
-                        break
-                if mode == 'flatten':
-                    # every coarser level is the leaf's ancestor
-                    cur = trees.GenTree.num(a[cid][gt.levels[-1]]['assignment'])
-                    for li in range(len(gt.levels) - 1, 0, -1):
-                        par = mapcheck.parent_of(gt.model, li, cur)
-                        rec = a[cid].get(gt.levels[li - 1])
-                        if rec is None or trees.GenTree.num(rec['assignment']) != par or rec.get('directly_assigned') is not False:
-                            bad = f'cell {cid}: level {gt.levels[li - 1]} holds {rec}, expected ancestor {par}'
-                            break
-                        cur = par
-                    if bad:
-                        break
-            if bad:
-                ctx.disagreements_checked += 1
-                dd['class'] = f'c17-{mode}'
-                ctx.violation(f'{mode} {lv}: {bad}', dd)
-                continue
-            # run A's complete output = the model's reduce/place/backfill of run B's records,
-            # and the property's predicate on run A
-            oa = out_cells(gt, ra, sc.cell_ids)
-            if any(x is None for x in oa):
-                dd['class'] = 'c17-record-keys'
-                ctx.violation(f'{mode} {lv}: a record of the output has an unexpected key set', dd)
-                continue
-            rows = [[rec_to_election_wire(b[cid][x]) for x in shared] for cid in sc.cell_ids]
-            voted = [gt.levels.index(x) for x in shared]
-            mm, sp = ctx.model([(1703, [gt.model, mcfg[0], mcfg[1], rows]),
-                                (1704, [gt.model, voted, len(sc.cell_ids), oa])])
-            if sp != [0, 1]:
-                ctx.disagreements_checked += 1
-                dd['class'] = 'c17-spec'
-                ctx.violation(f'{mode} {lv}: spec_c17 fails on the output of the real run', dd)
-            elif mm[0] != 0 or [sorted(c, key=lambda e: e[0]) for c in red_fracs(mm[1])] != oa:
-                ctx.disagreements_checked += 1
-                dd['class'] = 'corr:RunMapping.place_backfill'
-                dd['model'], dd['impl'] = mm, oa
-                ctx.violation(f'{mode} {lv}: the model\'s completion of run B\'s records is not run A\'s output',
-                              dd, no_input=True)
+        paired_modes(ctx, k, sc, var, modes[:ctx.n(3, 6)])
         if k < 2:
             ctx.sample({'tree': gt.data, 'markers': sc.markers, 'config': var, 'modes': [list(m) for m in modes[:3]]})
+    # 4-5 levels, a dropped MIDDLE level above a parent level, parents below it short of markers
+    for k in range(ctx.n(9, 150)):
+        sc, li, min_markers = gen_sparse_scenario(rng)
+        gt = sc.tree
+        var = paired.base_var(rng, sc, factor=rng.choice([0.5, 0.75, 1.0]))
+        var['min_markers'] = min_markers
+        modes = [('drop', gt.levels[li])]
+        if rng.random() < 0.35:
+            modes.append(rng.choice([('drop', gt.levels[li + 1]), ('drop', gt.levels[0]), ('flatten', None)]))
+        sparse = sparse_parents(sc, li, min_markers)
+        ctx.dist('sparse_scenarios', f'{len(gt.levels)} levels, drop level {li}, min_markers {min_markers}, '
+                                     f'{"some" if sparse else "no"} parent of level {li + 1} short of markers')
+        paired_modes(ctx, f's{k}', sc, var, modes, sparse=(li, sparse))
+        if k < 2:
+            ctx.sample({'tree': gt.data, 'markers': sc.markers, 'config': var, 'dropped_middle_level': gt.levels[li],
+                        'parents_short_of_markers': [gt.name(x) for x in sparse]}, limit=8)
+
+
+def borrowed_from_ancestor(ra, gt, li, sparse):
+    """did run A's marker reconciliation patch a sparse parent of level li+1 with the list of a proper
+    ancestor (not only the root's), and was a cell routed through such a parent?  (from the log and results)"""
+    log = ra['output'].get('log') or []
+    text = '\n'.join(str(x) for x in log) if isinstance(log, list) else str(log)
+    patched = []
+    for node in sparse:
+        key = f"'{gt.levels[li + 1]}/{gt.name(node)}' had too few markers"
+        for line in text.split('\n'):
+            if key in line and 'augmenting with markers from' in line:
+                src = line.split('augmenting with markers from', 1)[1]
+                if any(f"'{gt.levels[a]}/" in src for a in range(li)):
+                    patched.append(node)
+    routed = [x for x in patched
+              if any(r.get(gt.levels[li + 1], {}).get('assignment') == gt.name(x) for r in ra['output']['results'])]
+    return patched, routed
+
+
+def paired_modes(ctx, k, sc, var, modes, sparse=None):
+    rng = ctx.rng
+    gt = sc.tree
+    desc = {'kind': 'paired-run', 'tree': gt.data, 'markers': sc.markers, 'cell_ids': sc.cell_ids,
+            'query': sc.query.tolist(), 'query_genes': sc.query_genes, 'ref_genes': sc.ref_genes,
+            'means': {str(a): b for a, b in sc.means.items()}, 'config': var}
+    for mode, lv in modes:
+        ctx.count(('c17', k, mode, lv), nontrivial=len(gt.levels) >= 2)
+        ctx.dist('mode', mode)
+        ctx.dist('levels', len(gt.levels))
+        dd = dict(desc)
+        dd.update({'mode': mode, 'level': lv})
+        if mode == 'drop':
+            li = gt.levels.index(lv)
+            m = ctx.model([(1004, [gt.model, li])])[0]
+            va = dict(var); va['drop_level'] = lv
+            ra = paired.run_once(ctx, sc, f'a{k}_{li}', **va)
+            if m[0] != 0:
+                if ra['ok']:
+                    dd['class'] = 'corr:Tree.drop_level'
+                    ctx.violation(f'model rejects dropping {lv} ({m}) but the run succeeded', dd, no_input=True)
+                continue
+            rlevels = [x for x in gt.levels if x != lv]
+            rdata = model_to_data(rlevels, m[1], gt)
+            rb = paired.run_once(ctx, sc, f'b{k}_{li}', tree_data=rdata, **var)
+            shared = rlevels
+            mcfg = ([li], False)
+        elif mode == 'flatten':
+            va = dict(var); va['flatten'] = True
+            ra = paired.run_once(ctx, sc, f'a{k}_f', **va)
+            rdata = model_to_data([gt.levels[-1]], [gt.model[-1]], gt)
+            union = sorted(set(g for v in sc.markers.values() for g in v), key=lambda g: pipeline.gname(g))
+            rb = paired.run_once(ctx, sc, f'b{k}_f', tree_data=rdata, markers={'None': union}, **var)
+            shared = [gt.levels[-1]]
+            mcfg = ([], True)
+        else:
+            va = dict(var); va['drop_level'] = lv
+            ra = paired.run_once(ctx, sc, f'a{k}_x', **va)
+            rb = paired.run_once(ctx, sc, f'b{k}_x', **var)
+            shared = gt.levels
+            mcfg = ([len(gt.levels)], False)          # an index that is not a level
+        if not ra['ok'] or not rb['ok']:
+            dd['class'] = 'c17-run-raises'
+            dd['error'] = [ra['error'], rb['error']]
+            ctx.violation(f'{mode} {lv}: a run raised: {dd["error"]}', dd)
+            continue
+        a, b = paired.by_cell(ra), paired.by_cell(rb)
+        if sparse is not None and mode == 'drop' and gt.levels.index(lv) == sparse[0]:
+            patched, routed = borrowed_from_ancestor(ra, gt, sparse[0], sparse[1])
+            ctx.dist('sparse_parent_fallback', 'borrowed from a proper ancestor, a cell routed through it' if routed else
+                     'borrowed from a proper ancestor, no cell routed through it' if patched else
+                     'no borrowing from a proper ancestor')
+            ctx.count(('c17-sparse', k, lv), nontrivial=bool(routed))
+        bad = None
+        for cid in sc.cell_ids:
+            diff = paired.compare_records(a[cid], b[cid], shared, bitwise=True)
+            if diff:
+                bad = f'cell {cid}: {diff}'
+                # the marker lists the two runs ended up using (diagnostic only)
+                ma, mb = ra['output'].get('marker_genes') or {}, rb['output'].get('marker_genes') or {}
+                md = [f'{key}: {sorted(ma.get(key, []))} instead of {sorted(mb[key])}' for key in mb
+                      if sorted(ma.get(key, [])) != sorted(mb[key])]
+                if md:
+                    bad += ' (markers used differ at ' + '; '.join(md[:3]) + ')'
+                break
+            if mode == 'drop':
+                li = gt.levels.index(lv)
+                finer = trees.GenTree.num(a[cid][gt.levels[li + 1]]['assignment'])
+                par = mapcheck.parent_of(gt.model, li + 1, finer)
+                rec = a[cid].get(lv)
+                if rec is None or trees.GenTree.num(rec['assignment']) != par or rec.get('directly_assigned') is not False:
+                    bad = f'cell {cid}: dropped level {lv} holds {rec}, expected the parent {par} of {finer}, inferred'
+                    break
+            if mode == 'flatten':
+                # every coarser level is the leaf's ancestor
+                cur = trees.GenTree.num(a[cid][gt.levels[-1]]['assignment'])
+                for li in range(len(gt.levels) - 1, 0, -1):
+                    par = mapcheck.parent_of(gt.model, li, cur)
+                    rec = a[cid].get(gt.levels[li - 1])
+                    if rec is None or trees.GenTree.num(rec['assignment']) != par or rec.get('directly_assigned') is not False:
+                        bad = f'cell {cid}: level {gt.levels[li - 1]} holds {rec}, expected ancestor {par}'
+                        break
+                    cur = par
+                if bad:
+                    break
+        if bad:
+            ctx.disagreements_checked += 1
+            dd['class'] = f'c17-{mode}'
+            ctx.violation(f'{mode} {lv}: {bad}', dd)
+            continue
+        # run A's complete output = the model's reduce/place/backfill of run B's records,
+        # and the property's predicate on run A
+        oa = out_cells(gt, ra, sc.cell_ids)
+        if any(x is None for x in oa):
+            dd['class'] = 'c17-record-keys'
+            ctx.violation(f'{mode} {lv}: a record of the output has an unexpected key set', dd)
+            continue
+        rows = [[rec_to_election_wire(b[cid][x]) for x in shared] for cid in sc.cell_ids]
+        voted = [gt.levels.index(x) for x in shared]
+        mm, sp = ctx.model([(1703, [gt.model, mcfg[0], mcfg[1], rows]),
+                            (1704, [gt.model, voted, len(sc.cell_ids), oa])])
+        if sp != [0, 1]:
+            ctx.disagreements_checked += 1
+            dd['class'] = 'c17-spec'
+            ctx.violation(f'{mode} {lv}: spec_c17 fails on the output of the real run', dd)
+        elif mm[0] != 0 or [sorted(c, key=lambda e: e[0]) for c in red_fracs(mm[1])] != oa:
+            ctx.disagreements_checked += 1
+            dd['class'] = 'corr:RunMapping.place_backfill'
+            dd['model'], dd['impl'] = mm, oa
+            ctx.violation(f'{mode} {lv}: the model\'s completion of run B\'s records is not run A\'s output',
+                          dd, no_input=True)
 
 
 def run(ctx):
